@@ -47,6 +47,14 @@ CLAIMED.update({
             "§3 C11"),
 })
 
+CLAIMED.update({
+    "C04": ("exploration",
+            "bounded-exhaustive enumeration of all shape triples (m,n,k)<=5 (quick) / <=8 (thorough) x all ordered pairs of 7 fill patterns with exact (dyadic) arithmetic so every oracle is an equality; every ordered pair of shapes for the element-wise operators in child processes under ASan/UBSan",
+            "Every operator spelling (member functions, operators, compound assignment, free operators) is compared entry by entry with its definition on operands whose sums and products are exact in binary64, for every shape triple up to the bound including all non-square ones; transpose/identity/involution laws, matrix-vector/vector-matrix/outer/dot/cross against products of row and column matrices, Trace, Norm, predicates with every single-entry perturbation, Sub_Matrix/Delete/Return for every index, block constructor for every 2x2 arrangement with block dimensions 0..3. For every ordered pair of shapes the element-wise operations must return iff the shapes are equal, else exit with a diagnostic and no sanitizer report.",
+            "Entries come from 7 deterministic patterns over half-integers and powers of two (not arbitrary reals): rounding behaviour of inexact sums is outside this check.",
+            "§3 C04"),
+})
+
 NOT_APPLICABLE = {
 }
 
